@@ -144,6 +144,60 @@ def code_state_rule(ctx: Ctx, rule: str) -> None:
     ctx.need(n >= 100, rule, 'panqec/codes', f'only {n} code methods analysed')
 
 
+def class_mutable_rule(ctx: Ctx, rule: str, class_names) -> None:
+    """A mutable container defined at class level is shared by all instances: a method may mutate it in place only
+    if every constructor rebinds it on the instance first."""
+    m = ctx.model
+    for cname in class_names:
+        ci = m.cls(cname)
+        for c in ci.mro:
+            for attr, val in c.attrs.items():
+                mutable = isinstance(val, (ast.List, ast.Dict, ast.Set)) or (
+                    isinstance(val, ast.Call) and ast.unparse(val.func) in ('list', 'dict', 'set', 'defaultdict', 'OrderedDict'))
+                if not mutable:
+                    continue
+                # rebinding in __init__ (of the concrete class chain)
+                rebound = False
+                for cc in ci.mro:
+                    init = cc.methods.get('__init__')
+                    if init is None:
+                        continue
+                    for n in init.body:
+                        for t in ast.walk(n):
+                            if isinstance(t, (ast.Assign, ast.AnnAssign)):
+                                tg = t.targets if isinstance(t, ast.Assign) else [t.target]
+                                if any(isinstance(x, ast.Attribute) and isinstance(x.value, ast.Name) and x.value.id == 'self'
+                                       and x.attr == attr for x in tg) and not (isinstance(t, ast.AnnAssign) and t.value is None):
+                                    rebound = True
+                # in-place mutations through self.<attr>
+                muts = []
+                for cc in ci.mro:
+                    for fn in cc.methods.values():
+                        for n in ast.walk(fn):
+                            tgt = None
+                            if isinstance(n, ast.AugAssign):
+                                tgt = n.target
+                            elif isinstance(n, ast.Assign) and isinstance(n.targets[0], ast.Subscript):
+                                tgt = n.targets[0].value
+                            elif isinstance(n, ast.Call) and isinstance(n.func, ast.Attribute) and n.func.attr in (
+                                    'append', 'extend', 'update', 'insert', 'add', 'setdefault', 'pop', 'remove', 'clear'):
+                                tgt = n.func.value
+                            if isinstance(tgt, ast.Subscript):
+                                tgt = tgt.value
+                            if isinstance(tgt, ast.Attribute) and isinstance(tgt.value, ast.Name) and tgt.value.id == 'self' \
+                                    and tgt.attr == attr:
+                                muts.append((cc, fn, n))
+                if not muts:
+                    continue
+                ok = rebound
+                cc, fn, n = muts[0]
+                ctx.ob(rule, site_of(cc.module, n), f'{cname}.{attr}: class-level container is rebound per instance before it is '
+                                                    f'mutated', ok,
+                       f'{c.name}.{attr} = {ast.unparse(val)} is shared by all instances and {cc.name}.{fn.name} mutates it in '
+                       f'place ({norm_stmt(n)}) without __init__ rebinding it: state leaks from one object to the next',
+                       key=f'{cname}.{attr}|class-mutable')
+
+
 def run(ctx: Ctx) -> None:
     ctx.rule('R06.1', 'decode never stores through its syndrome argument (directly or via callees)', floor=9)
     ctx.rule('R06.2', 'values handed out by the cached probability_distribution are never stored through', floor=5)
